@@ -35,6 +35,7 @@ func (ix *idxEngine) intFacts(p *prover, v ssa.Value, t string, at ssa.Instructi
 	case *ssa.Phi:
 		if p.isLoopPhi(x) {
 			out = append(out, p.headerBoundInvariant(x, t)...)
+			out = append(out, p.entryLowerBoundInvariant(x, t)...)
 			out = append(out, p.relationalInvariants(x, t)...)
 			out = append(out, p.rangeCounterFacts(x, t, at)...)
 		}
@@ -345,6 +346,47 @@ func (p *prover) headerBoundInvariant(x *ssa.Phi, t string) []constraint {
 			hyp = []constraint{inv(linTerm(t))}
 		}
 		if ok, _ := p.prove(goal, last, hyp, 1); !ok {
+			return nil
+		}
+	}
+	out := []constraint{inv(linTerm(t))}
+	p.relCache[key] = out
+	return out
+}
+
+// entryLowerBoundInvariant: a loop variable that starts at the constant c0 and is only ever replaced by
+// values proved >= c0 (under the conditions of the edge that carries them) stays >= c0.
+func (p *prover) entryLowerBoundInvariant(x *ssa.Phi, t string) []constraint {
+	key := "elb:" + t
+	if c, ok := p.relCache[key]; ok {
+		return c
+	}
+	p.relCache[key] = nil
+	hdr := x.Block()
+	var c0 int64
+	have := false
+	for k, pred := range hdr.Preds {
+		if hdr.Dominates(pred) {
+			continue
+		}
+		k0, ok := constInt(x.Edges[k])
+		if !ok || (have && k0 != c0) {
+			return nil
+		}
+		c0, have = k0, true
+	}
+	if !have {
+		return nil
+	}
+	inv := func(v lin) constraint {
+		return leq(linConst(c0), v, "loop invariant "+x.Comment+" >= its initial value (inductive)")
+	}
+	for k, pred := range hdr.Preds {
+		if !hdr.Dominates(pred) {
+			continue
+		}
+		last := pred.Instrs[len(pred.Instrs)-1]
+		if ok, _ := p.prove(inv(p.linOf(x.Edges[k])), last, []constraint{inv(linTerm(t))}, 1); !ok {
 			return nil
 		}
 	}
